@@ -44,31 +44,32 @@ type BuildFunc func(w *World) *Scenario
 
 // Result is what one run produced.
 type Result struct {
-	Seed         int64               `json:"seed"`
-	Config       string              `json:"config"`
-	Class        string              `json:"class,omitempty"`
-	Msg          string              `json:"msg,omitempty"`
-	Hash         string              `json:"hash"`
-	Reason       string              `json:"reason"`
-	Steps        uint64              `json:"steps"`
-	Hooks        uint64              `json:"hooks"`
-	Preempts     uint64              `json:"preempts"`
-	SimNS        int64               `json:"sim_ns"`
-	WallUS       int64               `json:"wall_us"`
-	Strategy     string              `json:"strategy"`
-	Faults       map[string]int      `json:"faults,omitempty"`
-	Probes       map[string]int      `json:"probes,omitempty"`
-	Leaked       int                 `json:"leaked,omitempty"`
-	LeakIDs      []string            `json:"leak_ids,omitempty"`
-	Nontrivial   bool                `json:"nontrivial"`
-	Desc         any                 `json:"desc,omitempty"`
-	Streams      map[string][]uint32 `json:"streams,omitempty"`
-	Trace        []string            `json:"trace,omitempty"`
-	Infra        string              `json:"infra,omitempty"`
-	CleanupStuck bool                `json:"cleanup_stuck,omitempty"` // the end-of-run cleanup did not return within 30 simulated minutes
-	AnonHooks    uint64              `json:"anon_hooks,omitempty"`
-	Tag          string              `json:"tag,omitempty"`
-	TagSpace     int                 `json:"tag_space,omitempty"`
+	Seed                 int64               `json:"seed"`
+	Config               string              `json:"config"`
+	Class                string              `json:"class,omitempty"`
+	Msg                  string              `json:"msg,omitempty"`
+	Hash                 string              `json:"hash"`
+	Reason               string              `json:"reason"`
+	Steps                uint64              `json:"steps"`
+	Hooks                uint64              `json:"hooks"`
+	Preempts             uint64              `json:"preempts"`
+	MaxStepsAtOneInstant uint64              `json:"max_steps_at_one_instant,omitempty"`
+	SimNS                int64               `json:"sim_ns"`
+	WallUS               int64               `json:"wall_us"`
+	Strategy             string              `json:"strategy"`
+	Faults               map[string]int      `json:"faults,omitempty"`
+	Probes               map[string]int      `json:"probes,omitempty"`
+	Leaked               int                 `json:"leaked,omitempty"`
+	LeakIDs              []string            `json:"leak_ids,omitempty"`
+	Nontrivial           bool                `json:"nontrivial"`
+	Desc                 any                 `json:"desc,omitempty"`
+	Streams              map[string][]uint32 `json:"streams,omitempty"`
+	Trace                []string            `json:"trace,omitempty"`
+	Infra                string              `json:"infra,omitempty"`
+	CleanupStuck         bool                `json:"cleanup_stuck,omitempty"` // the end-of-run cleanup did not return within 30 simulated minutes
+	AnonHooks            uint64              `json:"anon_hooks,omitempty"`
+	Tag                  string              `json:"tag,omitempty"`
+	TagSpace             int                 `json:"tag_space,omitempty"`
 }
 
 // panicSink collects panics of registered goroutines (set per run).
@@ -142,6 +143,7 @@ func RunOne(t *testing.T, tape *Tape, config string, keepTrace bool, build Build
 			res.Steps = w.Steps
 			res.Hooks = w.S.Hooks
 			res.Preempts = w.S.Preempt
+			res.MaxStepsAtOneInstant = w.SpinMax
 			res.AnonHooks = w.S.AnonHit
 			res.SimNS = int64(w.Now())
 			res.Hash = w.Hash()
@@ -177,6 +179,13 @@ func RunOne(t *testing.T, tape *Tape, config string, keepTrace bool, build Build
 				case <-tm.C:
 					res.CleanupStuck = true
 					simhook.Poison()
+				}
+			}
+			if simhook.SpunInWindDown.Load() {
+				res.CleanupStuck = true
+				if res.Class == "" {
+					res.Class = "BUSY_LOOP"
+					res.Msg = "during the wind-down (Close of the connections under test) the code under test passed millions of scheduling points while the simulated clock could not advance: some goroutine is spinning (a read or retry loop that never blocks), and Close is waiting for it"
 				}
 			}
 			left := w.Finish(2 * time.Hour)
